@@ -496,6 +496,58 @@ def rule_r6(repo, run):
               "every run must call typemap.initialize()", mm.loc(f))
 
 
+
+def rule_r7(repo, run):
+    R = run.rule("C07.R7", "an attribute whose value is an object of the tree (a node) never reaches `\"{}({})\".format(attr, value)`: "
+                           "the default repr of an object contains its address, which differs from run to run")
+    # attribute tables and the keys stored in them with a node as value
+    NODE_LISTS = ("variables", "functions", "classes", "enums", "namespaces", "typedefs", "params")
+    obj_keys = {}
+    for m in repo.modules():
+        for q, fn in m.functions().items():
+            for a in ast.walk(fn):
+                if not (isinstance(a, ast.Assign) and len(a.targets) == 1 and isinstance(a.targets[0], ast.Subscript)
+                        and isinstance(a.targets[0].value, ast.Attribute) and a.targets[0].value.attr in ("attrs", "metaattrs")
+                        and pyflow.const_str(a.targets[0].slice) and isinstance(a.value, ast.Name)):
+                    continue
+                v = a.value.id
+                is_node = v == "self"
+                p_ = getattr(a, "_parent", None)
+                while p_ is not None and not is_node:
+                    if isinstance(p_, ast.For) and pyflow.is_name(p_.target, v) and isinstance(p_.iter, ast.Attribute) \
+                            and p_.iter.attr in NODE_LISTS:
+                        is_node = True
+                    p_ = getattr(p_, "_parent", None)
+                if is_node:
+                    obj_keys.setdefault(a.targets[0].value.attr, {})[pyflow.const_str(a.targets[0].slice)] = (m, a)
+    if not obj_keys:
+        raise AnalysisError("C07.R7: no node-valued attribute found (metaattrs['struct_member'] is one)")
+    dm = repo.module("declast")
+    always = set()
+    for a in ast.walk(dm.tree):
+        if isinstance(a, ast.Assign) and pyflow.is_name(a.targets[0], "_skip_annotations") and isinstance(a.value, (ast.List, ast.Tuple)):
+            always |= set(pyflow.const_str(e) for e in a.value.elts)
+    n = 0
+    for m in repo.modules():
+        for c in ast.walk(m.tree):
+            if not (isinstance(c, ast.Call) and isinstance(c.func, ast.Attribute) and c.func.attr == "gen_attrs" and c.args):
+                continue
+            tbl = c.args[0].attr if isinstance(c.args[0], ast.Attribute) else None
+            if tbl not in obj_keys:
+                continue
+            skip = set(always)
+            for extra in list(c.args[2:]) + [k.value for k in c.keywords if k.arg == "skip"]:
+                for key, val in pyflow.table_fields(extra):
+                    skip.add(key)
+            for key, (m2, a) in sorted(obj_keys[tbl].items()):
+                n += 1
+                run.check(R, "%s:gen_attrs(%s):%s" % (m.name, tbl, key), key in skip or key.startswith("_"),
+                          "`%s[%r]` holds a node (assigned at %s) and gen_attrs prints every attribute it is not told to skip as "
+                          "`+%s(<value>)`: the comment contains `<shroud.ast.VariableNode object at 0x...>`, different in every run"
+                          % (tbl, key, m2.loc(a), key), m.loc(c))
+    run.floor(R, "node-valued attributes checked against the printers of their table", n, 1)
+
+
 def run(repo, run, tier):
     tables.check_model_assumptions(repo)
     P = Program(repo)
@@ -505,6 +557,7 @@ def run(repo, run, tier):
     rule_r4(repo, run)
     rule_r5(repo, run, P)
     rule_r6(repo, run)
+    rule_r7(repo, run)
     run.assumptions.extend([
         "dict iteration order is insertion order (CPython >= 3.7) and therefore deterministic",
         "call resolution: own symbol tables (module functions, self.methods through the MRO, unique "
